@@ -16,7 +16,14 @@ import (
 	"golang.org/x/tools/go/ssa/ssautil"
 )
 
-const repoModuleDir = "/repo/gnark-plonky2-verifier"
+var repoModuleDir = "/repo/gnark-plonky2-verifier"
+
+func init() {
+	// GOVC_REPO lets the developer point govc at a scratch worktree; the registered checks never set it.
+	if r := os.Getenv("GOVC_REPO"); r != "" {
+		repoModuleDir = r + "/gnark-plonky2-verifier"
+	}
+}
 
 type Loaded struct {
 	fset  *token.FileSet
@@ -114,6 +121,7 @@ func newEngine(l *Loaded) *Engine {
 	e.pkgInit = map[*ssa.Package]bool{}
 	e.globalsRead = map[string]bool{}
 	e.opaqueUsed = map[string]bool{}
+	e.lemmasUsed = map[string]bool{}
 	e.globalWriters = scanGlobalWriters(l)
 	return e
 }
@@ -281,6 +289,13 @@ func cmdDump(args []string) {
 		}
 		for _, m := range modesFor(ct) {
 			if err := e.verifyFunction(fn, ct, m); err != nil {
+				fmt.Println("ERROR:", err)
+			}
+		}
+	}
+	for _, lm := range l.cs.Lemmas {
+		if e.lemmasUsed[lm.Name] || len(want) == 0 {
+			if err := e.proveLemma(lm); err != nil {
 				fmt.Println("ERROR:", err)
 			}
 		}
